@@ -29,7 +29,12 @@ type h1bFact struct {
 // condition itself, the operand of a negation, and for the phi that go/ssa
 // builds for `a && b` / `a || b` in value context the deciding operand plus the
 // conditions established on the edge that carries it.
-func h1bImplied(cond ssa.Value, pol bool) []h1bFact {
+func h1bImplied(cond ssa.Value, pol bool) []h1bFact { return h1bImpliedD(cond, pol, 0) }
+
+// h1bImpliedD: cd counts how many calls the expansion already looked through
+// (a fact about the result of a boolean helper is expanded through the return
+// that decides it, see h1bImpliedThrough).
+func h1bImpliedD(cond ssa.Value, pol bool, cd int) []h1bFact {
 	var out []h1bFact
 	seen := map[h1bFact]bool{}
 	var walk func(v ssa.Value, pol bool, d int)
@@ -44,6 +49,15 @@ func h1bImplied(cond ssa.Value, pol bool) []h1bFact {
 		case *ssa.UnOp:
 			if x.Op == token.NOT {
 				walk(x.X, !pol, d+1)
+			}
+		case *ssa.Call, *ssa.Extract:
+			if cd < 2 {
+				for _, g := range h1bImpliedThroughD(v, pol, cd+1) {
+					if !seen[g] {
+						seen[g] = true
+						out = append(out, g)
+					}
+				}
 			}
 		case *ssa.Phi:
 			// all edges but one are the constant !pol: the remaining edge decided
@@ -125,63 +139,15 @@ func h1bGuarded(b *ssa.BasicBlock, match func(h1bFact) bool) bool {
 // h1bReach is core.ReachAvoiding with witness edges: starting just after
 // `from` (function entry when nil), is an instruction satisfying target
 // reachable on a path that neither executes an instruction satisfying avoid nor
-// takes a branch edge that establishes a fact satisfying avoidFact?
+// takes a branch edge that establishes a fact satisfying avoidFact? The search
+// stays inside fn; it is sensitive to boolean phis (named booleans) and prunes
+// branches decided by the path taken (see h1bSearch).
 func h1bReach(fn *ssa.Function, from ssa.Instruction, avoid func(ssa.Instruction) bool, avoidFact func(h1bFact) bool, target func(ssa.Instruction) bool) ssa.Instruction {
 	if fn == nil || len(fn.Blocks) == 0 {
 		return nil
 	}
-	sb, si := fn.Blocks[0], 0
-	if from != nil {
-		sb = from.Block()
-		for i, x := range sb.Instrs {
-			if x == from {
-				si = i + 1
-			}
-		}
-	}
-	seen := map[*ssa.BasicBlock]bool{}
-	var work []*ssa.BasicBlock
-	scan := func(b *ssa.BasicBlock, i int) ssa.Instruction {
-		for ; i < len(b.Instrs); i++ {
-			in := b.Instrs[i]
-			if target(in) {
-				return in
-			}
-			if avoid != nil && avoid(in) {
-				return nil
-			}
-		}
-		for k, s := range b.Succs {
-			if avoidFact != nil {
-				blocked := false
-				for _, f := range h1bEdgeFacts(b, k) {
-					if avoidFact(f) {
-						blocked = true
-						break
-					}
-				}
-				if blocked {
-					continue
-				}
-			}
-			if !seen[s] {
-				seen[s] = true
-				work = append(work, s)
-			}
-		}
-		return nil
-	}
-	if r := scan(sb, si); r != nil {
-		return r
-	}
-	for len(work) > 0 {
-		b := work[len(work)-1]
-		work = work[:len(work)-1]
-		if r := scan(b, 0); r != nil {
-			return r
-		}
-	}
-	return nil
+	q := &h1bSearch{Anchor: fn, Avoid: avoid, AvoidFact: avoidFact, Target: target, NoInline: true}
+	return q.Reach(from)
 }
 
 // h1bCmp normalises a fact about a comparison: it reports the operands and
@@ -346,6 +312,9 @@ func h1bFunc(c *core.Ctx, pkg, name string) *ssa.Function {
 // dominates the other and no path from the first reaches an exit without the
 // second).
 func h1bCoupled(a, b ssa.Instruction) bool {
+	if a.Parent() != b.Parent() {
+		return false
+	}
 	if a.Block() == b.Block() {
 		return true
 	}
